@@ -4,12 +4,13 @@
 (*   natural number  = little-endian sequence of limbs base WB, no most-significant zero limb;       *)
 (*                     zero is <<>>                                                                   *)
 (*   integer (Z)     = [neg |-> BOOLEAN, m |-> natural], neg = FALSE for zero (canonical, so = works)*)
-(* WB is a parameter: the trace specification instantiates WB = 2^15 (limb products stay below 2^30); *)
+(* WB = 2^LB is a parameter: the trace specification instantiates WB = 2^15 (limb products stay below 2^30); *)
 (* IntMath.tla also instantiates WB = 4, which spreads an 8-bit value over four limbs, so that TLC     *)
 (* exercises every carry/borrow path when it proves these definitions equal to plain TLC arithmetic.  *)
 EXTENDS Integers, Sequences
 
-CONSTANT WB
+CONSTANTS WB, LB
+ASSUME WB = 2^LB /\ LB >= 1 /\ LB <= 15
 
 \* ---- naturals -----------------------------------------------------------------------------------
 Limb(a, i) == IF i <= Len(a) THEN a[i] ELSE 0
@@ -45,10 +46,10 @@ NSubR(a, b, i, br) ==
          IF d < 0 THEN <<d + WB>> \o NSubR(a, b, i + 1, 1) ELSE <<d>> \o NSubR(a, b, i + 1, 0)
 NSub(a, b) == NNorm(NSubR(a, b, 1, 0))
 
-\* a * d for a single limb d
+\* a * d for a small factor d (d * WB < 2^31; d may exceed WB)
 RECURSIVE NMulLimbR(_, _, _, _)
 NMulLimbR(a, d, i, c) ==
-    IF i > Len(a) THEN (IF c = 0 THEN <<>> ELSE <<c>>)
+    IF i > Len(a) THEN NOfInt(c)
     ELSE LET p == a[i] * d + c IN <<p % WB>> \o NMulLimbR(a, d, i + 1, p \div WB)
 NMulLimb(a, d) == IF d = 0 THEN <<>> ELSE NMulLimbR(a, d, 1, 0)
 
@@ -68,14 +69,22 @@ NHalfR(a, i, r) == IF i = 0 THEN <<>>
                    ELSE LET v == r * WB + a[i] IN NHalfR(a, i - 1, v % 2) \o <<v \div 2>>
 NHalf(a) == NNorm(NHalfR(a, Len(a), 0))
 
-RECURSIVE NPow2(_)
-NPow2(n) == IF n = 0 THEN <<1>> ELSE NDouble(NPow2(n - 1))
+\* 2^n: by repeated doubling (definition) and written down limb by limb (used; IntMath.tla: equal)
+RECURSIVE NPow2Def(_)
+NPow2Def(n) == IF n = 0 THEN <<1>> ELSE NDouble(NPow2Def(n - 1))
+NPow2(n) == [i \in 1..((n \div LB) + 1) |-> IF i = (n \div LB) + 1 THEN 2^(n % LB) ELSE 0]
 
 \* value of a 0/1 sequence, index 1 least significant
 RECURSIVE NOfBitsR(_, _)
 NOfBitsR(b, i) == IF i > Len(b) THEN <<>>
                   ELSE NAdd(NDouble(NOfBitsR(b, i + 1)), IF b[i] = 1 THEN <<1>> ELSE <<>>)
 NOfBits(b) == NOfBitsR(b, 1)
+
+\* value of a little-endian array of 16-bit limbs (how 32/64-bit words are logged): Horner, 65536 = 256 * 256
+RECURSIVE NOfLimbs16R(_, _)
+NOfLimbs16R(l, k) == IF k > Len(l) THEN <<>>
+                     ELSE NAdd(NMulLimb(NMulLimb(NOfLimbs16R(l, k + 1), 256), 256), NOfInt(l[k]))
+NOfLimbs16(l) == NOfLimbs16R(l, 1)
 
 \* schoolbook binary long division: a = q*b + r, 0 <= r < b   (b # 0)
 RECURSIVE NDivMod(_, _)
@@ -130,6 +139,10 @@ ZOfBits(b, s) == LET n == NOfBits(b) IN
 \* numeric_limits of the integer type with w value+sign bits and signedness s
 ZMin(w, s) == IF s = 1 THEN ZMk(TRUE, NPow2(w - 1)) ELSE Z0
 ZMax(w, s) == ZMk(FALSE, NSub(NPow2(IF s = 1 THEN w - 1 ELSE w), <<1>>))
+
+\* two's complement word given as 16-bit limbs -> integer
+ZOfLimbs16(l, w, s) == LET n == NOfLimbs16(l) IN
+                       IF s = 1 /\ l[Len(l)] >= 32768 THEN ZMk(TRUE, NSub(NPow2(w), n)) ELSE ZMk(FALSE, n)
 ZFits(z, w, s) == ZLe(ZMin(w, s), z) /\ ZLe(z, ZMax(w, s))
 ZClamp(z, w, s) == IF ZLt(z, ZMin(w, s)) THEN ZMin(w, s) ELSE IF ZLt(ZMax(w, s), z) THEN ZMax(w, s) ELSE z
 
